@@ -24,6 +24,10 @@ CHECKS = {
             "closure BFS (state space closes: every stream length, every weak order pattern incl. both zeros) of the real selection methods x sort/max/min/arg reference for lengths 1..5 (7 thorough); macro-step exploration of <=2/3 constant/ramp segments for every length 1..=254",
             "The algorithms only compare and copy, so a closed exploration over an alphabet of n+1 ordered values plus both zeros covers every behaviour class of a length-n window for streams of any length; outputs are compared exactly (up to the sign of zero), SMM's exported window must hold the last n inputs.",
             "Trusted: the order-pattern lifting argument, the sort-based reference. Lengths above 7 are covered by segment streams only."),
+    "C08": ("DESIGN.md §6 C08",
+            "exhaustive exploration over every method (small + boundary parameters, 6 construction values of any magnitude/sign/zero/non-dyadic) and every indicator (default, small-period, every MA kind in every slot): (1) constant feed of the construction value for max(3n+5,40) steps, (2) product exploration of an instance fed k in {1,2,3,n-1,n,n+1} extra leading copies and a fresh one over every continuation of depth 3-6",
+            "Constancy is judged bitwise for exact kinds and signals and against a radius WITHOUT a factor t (free of drift) for arithmetic outputs; prefix invariance is a relation between two runs checked on every explored continuation.",
+            "Trusted: the no-growth radius 16*eps*(n+8)*M. Cumulative/counting subjects (windowless Integral/ADI, ChaikinOscillator with window 0, CollapseTimeframe, Renko volume) are exempt as the property says; ParabolicSAR from its second step."),
     "C09": ("DESIGN.md §6 C09",
             "total enumeration of every API form (over, call, apply, new_over, new_apply, into_fn, new_fn, with_history, with_last_value, mixed) x every chunking (all cut sets incl. empty chunks) x every input sequence up to length 4 (5 thorough) for every method and small parameter set, against a twin driven by next only; depth-bounded product exploration (original, identically built twin, clone driven down a different branch, clone continuing) with peek compared after every step; the same for every indicator incl. config/instance over, init_fn, into_fn and the Dyn over",
             "Every way of cutting every short stream into chunks is enumerated, and BFS/DFS branching itself exercises clone independence at every state; outputs are compared bitwise.",
